@@ -24,6 +24,8 @@ import (
 	"reflect"
 	"sort"
 	"strings"
+	"sync"
+	"sync/atomic"
 
 	"github.com/unixpickle/model3d/model2d"
 	"github.com/unixpickle/model3d/model3d"
@@ -1020,6 +1022,125 @@ func rectsetBFS(r *ev.Run, maxDepth int, maxStates int) {
 	}
 }
 
+// rectsetPairs enumerates every operation history of length <= depth on TWO live box sets A and B (Add/Remove of
+// boxes on either, A.AddRectSet(B), B.AddRectSet(A), A.RemoveRectSet(B)) and checks both sets after every history
+// against their occupancy references. Histories are NOT merged by representation: two pairs with equal contents
+// may differ in what they share (a set built from another one must not alias its storage), and that is exactly
+// what these histories are for.
+func rectsetPairs(r *ev.Run, depth int) {
+	boxes := [][6]float64{{0, 0, 0, 1, 1, 1}, {1, 0, 0, 2, 1, 1}, {0, 0, 0, 3, 1, 1}, {1, 1, 1, 3, 3, 3}, {0, 2, 0, 1, 3, 2}}
+	type pairOp struct {
+		name string
+		do   func(a, b *toolbox3d.RectSet)
+		ref  func(a, b uint32) (uint32, uint32)
+	}
+	var ops []pairOp
+	for i, bx := range boxes {
+		bx := bx
+		bits := boxBits(bx)
+		ops = append(ops,
+			pairOp{fmt.Sprintf("A.Add(box%d)", i), func(a, b *toolbox3d.RectSet) { a.Add(rsRect(bx)) }, func(a, b uint32) (uint32, uint32) { return a | bits, b }},
+			pairOp{fmt.Sprintf("B.Add(box%d)", i), func(a, b *toolbox3d.RectSet) { b.Add(rsRect(bx)) }, func(a, b uint32) (uint32, uint32) { return a, b | bits }})
+	}
+	rb := boxBits(boxes[1])
+	ops = append(ops,
+		pairOp{"A.Remove(box1)", func(a, b *toolbox3d.RectSet) { a.Remove(rsRect(boxes[1])) }, func(a, b uint32) (uint32, uint32) { return a &^ rb, b }},
+		pairOp{"B.Remove(box1)", func(a, b *toolbox3d.RectSet) { b.Remove(rsRect(boxes[1])) }, func(a, b uint32) (uint32, uint32) { return a, b &^ rb }},
+		pairOp{"A.AddRectSet(B)", func(a, b *toolbox3d.RectSet) { a.AddRectSet(b) }, func(a, b uint32) (uint32, uint32) { return a | b, b }},
+		pairOp{"B.AddRectSet(A)", func(a, b *toolbox3d.RectSet) { b.AddRectSet(a) }, func(a, b uint32) (uint32, uint32) { return a, b | a }},
+		pairOp{"A.RemoveRectSet(B)", func(a, b *toolbox3d.RectSet) { a.RemoveRectSet(b) }, func(a, b uint32) (uint32, uint32) { return a &^ b, b }})
+	// all histories of length exactly `depth` (every prefix is checked on the way, once, through a prefix set)
+	total := 1
+	for i := 0; i < depth; i++ {
+		total *= len(ops)
+	}
+	var checked sync.Map
+	var nHist int64
+	ev.Parallel(total, 16, func(idx int) {
+		hist := make([]int, depth)
+		x := idx
+		for i := depth - 1; i >= 0; i-- {
+			hist[i] = x % len(ops)
+			x /= len(ops)
+		}
+		a, b := toolbox3d.NewRectSet(), toolbox3d.NewRectSet()
+		var ra, rb2 uint32
+		for step, h := range hist {
+			names := make([]string, step+1)
+			for i := 0; i <= step; i++ {
+				names[i] = ops[hist[i]].name
+			}
+			if p := ev.Try(func() { ops[h].do(a, b) }); p != "" {
+				r.Violation("rectset-pair/panic", fmt.Sprintf("history %v panicked: %s", names, p), scase{Kind: "rectset-pair", Hist: names})
+				return
+			}
+			ra, rb2 = ops[h].ref(ra, rb2)
+			key := fmt.Sprint(hist[:step+1])
+			if _, dup := checked.LoadOrStore(key, true); dup {
+				continue
+			}
+			atomic.AddInt64(&nHist, 1)
+			r.Transitions(1)
+			r.Traces(1)
+			pairCheck(r, names, "A", a, ra)
+			pairCheck(r, names, "B", b, rb2)
+		}
+	})
+	r.Set("rectset_pair_histories", atomic.LoadInt64(&nHist))
+	r.Set("rectset_pair_depth", depth)
+	r.StatesAdd(int(atomic.LoadInt64(&nHist)))
+}
+
+func pairCheck(r *ev.Run, names []string, which string, rs *toolbox3d.RectSet, bits uint32) {
+	occupied := func(x, y, z int) bool {
+		if x < 0 || y < 0 || z < 0 || x > 2 || y > 2 || z > 2 {
+			return false
+		}
+		return bits&(1<<uint(x*9+y*3+z)) != 0
+	}
+	var sol model3d.Solid
+	if p := ev.Try(func() { sol = rs.Solid() }); p != "" {
+		r.Violation("rectset-pair/panic", fmt.Sprintf("history %v: %s.Solid() panicked: %s", names, which, p), scase{Kind: "rectset-pair", Hist: names})
+		return
+	}
+	// cell centres decide the occupancy; bounds must span the occupied cells
+	for x := 0; x < 3; x++ {
+		for y := 0; y < 3; y++ {
+			for z := 0; z < 3; z++ {
+				p := model3d.XYZ(float64(x)+0.5, float64(y)+0.5, float64(z)+0.5)
+				r.Eval(1)
+				if got := sol.Contains(p); got != occupied(x, y, z) {
+					r.Violation("rectset-pair/contains", fmt.Sprintf("history %v: set %s: Solid().Contains(%v)=%v, the cell is occupied=%v", names, which, p, got, occupied(x, y, z)), scase{Kind: "rectset-pair", Hist: names, Point: pt3(p)})
+					return
+				}
+			}
+		}
+	}
+	if bits != 0 {
+		lo, hi := [3]int{3, 3, 3}, [3]int{0, 0, 0}
+		for x := 0; x < 3; x++ {
+			for y := 0; y < 3; y++ {
+				for z := 0; z < 3; z++ {
+					if occupied(x, y, z) {
+						for a, v := range [3]int{x, y, z} {
+							if v < lo[a] {
+								lo[a] = v
+							}
+							if v+1 > hi[a] {
+								hi[a] = v + 1
+							}
+						}
+					}
+				}
+			}
+		}
+		wmin, wmax := model3d.XYZ(float64(lo[0]), float64(lo[1]), float64(lo[2])), model3d.XYZ(float64(hi[0]), float64(hi[1]), float64(hi[2]))
+		if rs.Min() != wmin || rs.Max() != wmax {
+			r.Violation("rectset-pair/bounds", fmt.Sprintf("history %v: set %s has bounds %v..%v, its occupied cells span %v..%v", names, which, rs.Min(), rs.Max(), wmin, wmax), scase{Kind: "rectset-pair", Hist: names})
+		}
+	}
+}
+
 // ---------------------------------------------------------------- main
 
 func main() {
@@ -1043,6 +1164,11 @@ func main() {
 	r.Isolate("smooth3", func() { smooth3(r, smLen) })
 	r.Isolate("smooth2", func() { smooth2(r, smLen) })
 	r.Isolate("rectset", func() { rectsetBFS(r, rsDepth, rsStates) })
+	pairDepth := 4
+	if r.Thorough() {
+		pairDepth = 5
+	}
+	r.Isolate("rectset-pairs", func() { rectsetPairs(r, pairDepth) })
 	r.Sample(scase{Kind: "algebra3", Ops: []int{0, 4, 6}, Point: []float64{0.25, 0, 0}})
 	r.Sample(scase{Kind: "smooth/SmoothJoin", Ops: []int{2, 0, 3}, Radius: 0.5, Point: []float64{0.2137, -0.2071, 0.2093}})
 	r.Sample(scase{Kind: "rectset", Hist: []string{"Add(box0)", "Remove(box3)", "AddRectSet(set1)"}})
@@ -1063,6 +1189,8 @@ func replay(r *ev.Run, c scase) {
 		smooth2(r, len(c.Ops))
 	case strings.HasPrefix(c.Kind, "smooth"):
 		smooth3(r, len(c.Ops))
+	case c.Kind == "rectset-pair":
+		rectsetPairs(r, len(c.Hist))
 	case c.Kind == "rectset":
 		rectsetBFS(r, len(c.Hist), 1<<30)
 	}
